@@ -93,7 +93,7 @@ func (H) Generate(r *simrt.Rand, tier string) any {
 		withRemovals := r.Intn(2) == 0
 		var in []int
 		for i := 0; i < n; i++ {
-			v := (1+r.Intn(keys))*1000 + i%1000
+			v := (1+r.Intn(keys))*100000 + i // key*100000+seq: distinct under ==, equal under the comparator
 			s.Ops = append(s.Ops, Op{"add", v})
 			in = append(in, v)
 			if withRemovals && r.Intn(3) == 0 {
@@ -127,6 +127,9 @@ func (H) Generate(r *simrt.Rand, tier string) any {
 	case "random":
 		for i := 0; i < n; i++ {
 			add(1 + r.Intn(4*n))
+			if r.Intn(8) == 0 {
+				s.Ops = append(s.Ops, Op{"remove", 1 + r.Intn(4*n) + 1000000*r.Intn(2)}) // mostly absent
+			}
 		}
 	case "delete-heavy":
 		for i := 0; i < n; i++ {
@@ -214,7 +217,7 @@ func (H) Execute(scAny any, cfg simrt.Config, st *core.Stats) (*simrt.Outcome, *
 		tree := avl.New(func(a, b int) int {
 			calls++
 			if dupKeys {
-				a, b = a/1000, b/1000
+				a, b = a/100000, b/100000
 			}
 			switch {
 			case a < b:
@@ -244,7 +247,13 @@ func (H) Execute(scAny any, cfg simrt.Config, st *core.Stats) (*simrt.Outcome, *
 				cloned = true
 			case "remove":
 				if !present[o.V] {
-					continue
+					// a value that is not there: Remove says so, and the tree (checked
+					// below like after any call) is still balanced
+					if tree.Remove(o.V) {
+						v = &core.Violation{Signature: "remove-absent-succeeded", Detail: fmt.Sprintf("op %d: Remove(%d) returned true for a value that is not in the tree", i, o.V)}
+						return
+					}
+					break
 				}
 				if !tree.Remove(o.V) {
 					if dupKeys {
@@ -267,7 +276,7 @@ func (H) Execute(scAny any, cfg simrt.Config, st *core.Stats) (*simrt.Outcome, *
 			}
 			pos := make(map[int]int, size)
 			for j, x := range in {
-				if j > 0 && (in[j-1] >= x && !dupKeys || dupKeys && in[j-1]/1000 > x/1000) {
+				if j > 0 && (in[j-1] >= x && !dupKeys || dupKeys && in[j-1]/100000 > x/100000) {
 					v = &core.Violation{Signature: "inorder-not-sorted", Detail: fmt.Sprintf("op %d %s: in-order %v", i, o, in)}
 					return
 				}
